@@ -18,6 +18,15 @@ import harness.C09 as C09, harness.C14 as C14, harness.C07 as C07
 CORE = "ragc-core"
 
 
+
+def site(ex):
+    """call site of a panic, specific enough to tell one function from another of the same name: <module>::<fn>[<operation>]"""
+    w = ex.where
+    mod = w.split("::")[0]
+    fn = w.split("::")[-1]
+    op = re.search(r"`\{\} (\S+) \{\}`", ex.msg or "") or re.search(r"attempt to (\w+)", ex.msg or "")
+    return f"{mod}::{fn}" + (f"[{op.group(1)}]" if op else "")
+
 class Estimate(C09.LZShape):
     """estimate() and get_coding_cost_vector() on shaped targets: no arithmetic-overflow panic."""
     def path(self, e):
@@ -34,7 +43,7 @@ class Estimate(C09.LZShape):
         return {"est": e.eval_concrete(est)}
 
     def classify_panic(self, e, ex):
-        return f"ovf:{ex.where.split('::')[-1]}:{ex.kind}", str(ex)
+        return f"ovf:{site(ex)}:{ex.kind}", str(ex)
 
     def native(self, inp):
         mm = inp.get("mm", self.mms[inp.get("mm_i", 0)])
@@ -99,7 +108,7 @@ class PushPriority(Instance):
         return None
 
     def classify_panic(self, e, ex):
-        return f"ovf:{ex.where.split('::')[-1]}:{ex.kind}", str(ex)
+        return f"ovf:{site(ex)}:{ex.kind}", str(ex)
 
     def native(self, inp):
         return "push_priority", {"earlier_samples": inp.get("earlier_samples", 0), "threads": 1 + inp.get("threads1", 0)}
@@ -117,7 +126,7 @@ def _ovf_only(inst_cls_obj, name):
     def classify(e, ex, _b=base_classify):
         if ex.kind != "overflow":
             return None, ""
-        return f"ovf:{ex.where.split('::')[-1]}:overflow", str(ex)
+        return f"ovf:{site(ex)}:overflow", str(ex)
     import copy
     j = copy.copy(i); j.name = name; j.classify_panic = classify
     j.required_witnesses = ()
